@@ -2,6 +2,7 @@
 import copy
 import itertools
 import pickle
+import os
 import warnings
 
 import vlib
@@ -37,7 +38,9 @@ STRS = ["a", "b"]
 TAGVALS = [("t", ()), ("t", ("x",)), ("t", ("x", "y")), ("s", "q")]
 # link = (rel|None, href|None)
 LINKVALS = [("l", ()), ("l", (("enclosure", "h1"), ("license", "h2"))), ("l", (("license", None), ("license", "h3"))),
-            ("l", (("alternate", "h4"), (None, "h5"), ("license", "h6"))), ("l", (("enclosure", None),)), ("s", "q")]
+            ("l", (("alternate", "h4"), (None, "h5"), ("license", "h6"))), ("l", (("enclosure", None),)), ("s", "q"),
+            # a license link whose href is PRESENT but empty (e.g. <link rel="license" href=""/> without a base): it is the answer
+            ("l", (("license", ""), ("license", "h7"))), ("l", (("license", ""),)), ("l", (("enclosure", ""), ("license", "")))]
 
 
 def tup(x):
@@ -385,8 +388,44 @@ def check_copy(docbytes, how):
     return None
 
 
+def check_warning_reaches_reader(reader, key):
+    """the read-through `updated` -> `published` WARNS: the DeprecationWarning must be attributed to the line that reads (that is what makes it
+    visible under Python's default filters and under module-scoped filters), on every read path"""
+    from feedparser.util import FeedParserDict
+    d = FeedParserDict()
+    d["published"] = "p"
+    d["published_parsed"] = "pp"
+    with warnings.catch_warnings(record=True) as w:
+        warnings.simplefilter("always")
+        if reader == "item":
+            v = d[key]
+        elif reader == "get":
+            v = d.get(key)
+        elif reader == "attr":
+            v = getattr(d, key)
+        else:
+            v = hasattr(d, key)
+    dep = [x for x in w if issubclass(x.category, DeprecationWarning)]
+    wit = {"warning": True, "reader": reader, "key": key}
+    if not dep:
+        return Finding(("op", "warn-attribution", reader), wit, "reading %r through %s on a mapping with only 'published' raises no DeprecationWarning" % (key, reader))
+    here = os.path.abspath(__file__)
+    if not any(os.path.abspath(x.filename) == here for x in dep):
+        return Finding(("op", "warn-attribution", reader), wit,
+                       "reading %r through %s: the DeprecationWarning is attributed to %s:%d, not to the reading line (invisible under default / module-scoped filters)"
+                       % (key, reader, dep[0].filename, dep[0].lineno), observed="%s:%d" % (dep[0].filename, dep[0].lineno), expected=here)
+    return None
+
+
 def search(ctx, focus=None):
     failures, n, distinct = [], 0, set()
+    for reader in ("item", "get", "attr", "hasattr"):
+        for key in ("updated", "updated_parsed"):
+            n += 1
+            distinct.add(("warn", reader, key))
+            f = check_warning_reaches_reader(reader, key)
+            if f:
+                failures.append(f)
     maxlen = ctx.n(2, 3)
     cap = ctx.n(1500, 12000)
     for fam in FAMILIES:
@@ -426,13 +465,16 @@ def search(ctx, focus=None):
             "exhaustive": False,
             "rule": "per alias family: every mutation history (set through every family key with each value class / del) up to length %d "
                     "(sampled above %d per length), all four observers on every family key after every mutation, compared with an "
-                    "independent documented-spec twin; plus random histories of length 4-9; plus deepcopy/pickle of %d parse results. "
+                    "independent documented-spec twin; the read-through warning reaches the READER (attributed to the reading line) on every read path; plus random histories of length 4-9; plus deepcopy/pickle of %d parse results. "
                     "distinct = distinct (family, history) pairs; every history has >= 1 mutation so all are non-trivial" % (maxlen, cap, len(DOCS)),
             "samples": [{"family": FAMILIES[3], "history": [["set", "date", "a"], ["del", "updated"]]},
                         {"copy": "deepcopy", "doc": DOCS[0][:60].decode()}]}
 
 
 def replay(w):
+    if w.get("warning"):
+        f = check_warning_reaches_reader(w["reader"], w["key"])
+        return (f is not None, f.what if f else "the read-through warning is attributed to the reader")
     if "doc" in w:
         f = check_copy(w["doc"], w["how"])
     else:
